@@ -18,8 +18,8 @@ HANG_IDS = ("nested-attribute-exponential", "macro-mutual-recursion-hang")   # k
 
 # tier -> (libFuzzer runs in total, jobs, time cap per process [s] or None, token-mutated kernels)
 TIERS = {
-    "quick": (64000, 16, None, 2000),
-    "thorough": (6400000, 16, 5400, 100000),
+    "quick": (32000, 16, None, 1500),
+    "thorough": (1600000, 16, 5400, 60000),
 }
 
 RULE = (
@@ -238,7 +238,7 @@ def mutate_tokens(rnd, text):
                     toks[k] = toks[nxt[0]] = b""
                     toks.insert(rnd.choice(idx), b" ".join(piece) + b" ")
         else:
-            toks[i] = rnd.choice([b"0", b"-1", b"n", b"", b"()", b"(,)", b"[]", b"{}", b"@", b"1.5", b"\"", b"'", b"/*"])
+            toks[i] = rnd.choice([b"0", b"-1", b"n", b"", b"()", b"(,)", b"[]", b"{}", b"@", b"1.5", b"x", b"0", b"*", b"\"", b"'", b"/*"])
         idx = [q for q, t in enumerate(toks) if t and not t.isspace()]
     return b"".join(toks)[:MAX_LEN - 1]
 
